@@ -107,9 +107,9 @@ prop("C11", "exploration",
           "columns, orphan rows; non-trivial = at least one audit of a non-empty library; distinct = new plan digest reaching a new "
           "observation hash")
 prop("C02", "exploration",
-     quick=[("tracks_audit", "fast", 1200), ("mixed_audit", "fast", 400), ("foreign", "fast", 800), ("table_audit", "fast", 700),
+     quick=[("tracks_audit", "fast", 1200), ("mixed_audit", "fast", 400), ("foreign", "fast", 800), ("foreign1", "fast", 800), ("table_audit", "fast", 700),
             ("tableh_audit", "fast", 300)],
-     thorough=[("tracks_audit", "fast", 60000), ("mixed_audit", "fast", 20000), ("foreign", "fast", 60000), ("table_audit", "fast", 40000),
+     thorough=[("tracks_audit", "fast", 60000), ("mixed_audit", "fast", 20000), ("foreign", "fast", 60000), ("foreign1", "fast", 40000), ("table_audit", "fast", 40000),
                ("tableh_audit", "fast", 20000)],
      relevant=["audits", "foreign_read_back", "table_rows_audited"],
      rule="every blob the library stores during the track workloads is read raw by a second SQLite client and decoded by refcodec "
